@@ -226,11 +226,12 @@ def _add_fn(spec: mmgen.Spec, name: str) -> mmgen.Fn:
 
 
 @st.composite
-def planted_specs(draw: Any, kind: Optional[str] = None) -> Planted:
+def planted_specs(draw: Any, kind: Optional[str] = None, control: Optional[bool] = None) -> Planted:
     opts = mmgen.Opts(max_classes=draw(st.integers(1, 4)), max_props=draw(st.integers(0, 3)), max_cps=1,
                       docs="none", invariants="none", max_enums=2)
     spec = draw(mmgen.specs(opts))
-    control = draw(st.integers(0, 9)) >= 7
+    if control is None:
+        control = draw(st.integers(0, 9)) >= 7
     if kind is None:
         kind = draw(st.sampled_from(SCOPE_KINDS))
     methods = []  # type: List[Method]
